@@ -225,6 +225,28 @@ func C04(p *core.Program, r *core.Report) {
 			}
 		}
 		r.Add("V1", "the caption visibility check rejects an element with a hidden ancestor", p.Pos(iv.Pos()), ok, "")
+		// ... and it starts at the element itself (CloneAndProcessTree keeps the root it is given
+		// whatever its own attributes say, so the element's own visibility is tested here or nowhere)
+		startsAtSelf := false
+		if len(hs) == 1 {
+			cv := core.NewCanon(p)
+			for _, in := range hs[0].Instrs {
+				ph, isPhi := in.(*ssa.Phi)
+				if !isPhi {
+					break
+				}
+				if !strings.HasSuffix(ph.Type().String(), "html.Node") {
+					continue
+				}
+				for _, e := range ph.Edges {
+					if par, isPar := e.(*ssa.Parameter); isPar && len(iv.Params) > 0 && (par == iv.Params[0] || len(iv.Params) > 1 && par == iv.Params[1] && iv.Signature.Recv() != nil) {
+						startsAtSelf = true
+					}
+				}
+				_ = cv
+			}
+		}
+		r.Add("V1", "the caption visibility check starts at the element itself", p.Pos(iv.Pos()), startsAtSelf, "the cursor of the ancestor loop must start at the element parameter, not at its parent")
 	}
 
 	// ---- V2
@@ -245,74 +267,11 @@ func C04(p *core.Program, r *core.Report) {
 	}
 
 	// ---- V5
-	var innerFinder *ssa.Function
-	if itf := mustFunc(p, r, "V5", domutilPkg+".InnerText"); itf != nil {
-		for _, f := range recursiveWorkers(p, itf) {
-			if len(core.Calls(p.Inlined(f), func(ci ssa.CallInstruction) bool {
-				return isSinkWrite(ci)
-			})) > 0 {
-				innerFinder = f
-			}
-		}
-		if innerFinder == nil {
-			r.Undecided("V5", "InnerText: the recursive text collector", "no self-recursive closure/helper of InnerText writes to the buffer")
-		}
-	}
-	if it := p.Inlined(innerFinder); it != nil {
-		paths, atoms, err := core.EnumerateDecisions(p, it, core.DecisionOpts{
-			Outcome: func(in ssa.Instruction, c *core.Canon) (string, bool) {
-				if _, ok := in.(*ssa.Return); ok {
-					return "done", true
-				}
-				return "", false
-			},
-			Event: func(in ssa.Instruction, c *core.Canon) (string, bool) {
-				if call, ok := in.(*ssa.Call); ok {
-					if s, ok := sinkWritten(call, c); ok {
-						return "write " + s, true
-					}
-					if isSelfCall(p, innerFinder, call) {
-						var nodes []string
-						for _, a := range call.Call.Args {
-							if types.TypeString(a.Type(), func(p *types.Package) string { return p.Name() }) == "*html.Node" {
-								nodes = append(nodes, c.Of(a))
-							}
-						}
-						return "recurse " + strings.Join(nodes, ","), true
-					}
-				}
-				return "", false
-			},
-		})
-		if err != nil {
-			r.Undecided("V5", "InnerText", err.Error())
-		}
-		// the node parameter of the collector ($0 for the closure form, any position for a named helper)
-		N := fmt.Sprintf("$%d", paramIndexOfType(it, "*html.Node"))
-		child := `μ(` + N + `.FirstChild|@0.NextSibling)`
-		spec := core.DecisionSpec{
-			Atoms: map[string]string{
-				"text":    q(`` + N + `.Type == html.TextNode`),
-				"element": q(`` + N + `.Type == html.ElementNode`),
-				"br":      q(`` + N + `.Data == "br"`),
-				"visible": q(`domutil.IsProbablyVisible(` + N + `)`),
-				// (the element name read as n.Data or through dom.TagName)
-				"script":   `^(` + regexp.QuoteMeta(N+`.Data`) + `|` + regexp.QuoteMeta(`dom.TagName(`+N+`)`) + `) == "script"$`,
-				"style":    `^(` + regexp.QuoteMeta(N+`.Data`) + `|` + regexp.QuoteMeta(`dom.TagName(`+N+`)`) + `) == "style"$`,
-				"children": q(`loop1(` + child + ` == nil)`),
-			},
-			Rules: []core.SpecRule{
-				{Name: "text node (no children)", Guard: core.And(core.A("text"), core.A("children")), Outcome: `write ((" " + ` + N + `.Data) + " ") => done`},
-				{Name: "text node", Guard: core.A("text"), Outcome: `write ((" " + ` + N + `.Data) + " "); recurse ` + child + ` => done`},
-				{Name: "line break", Guard: core.And(core.A("element"), core.A("br")), Outcome: `write "|\\/|" => done`},
-				{Name: "script or style: source code, not descended whatever its style says", Guard: core.And(core.A("element"), core.Or(core.A("script"), core.A("style"))), Outcome: "done"},
-				{Name: "hidden element: not descended", Guard: core.And(core.A("element"), core.Not(core.A("visible"))), Outcome: "done"},
-				{Name: "no children", Guard: core.A("children"), Outcome: "done"},
-				{Name: "visible element / other node: children are rendered", Guard: core.True(), Outcome: "recurse " + child + " => done"},
-			},
-		}
-		core.CheckDecisionList(r, "V5", "InnerText(finder)", paths, atoms, spec)
-	}
+	checkInnerTextCollector(p, r, "V5")
+	// ---- V6: what the visibility gate reads (hidden, style, aria-hidden, class) is what the page
+	// says: no pass rewrites the clone before the walk, except the two reviewed removal passes
+	// (shared with C18-T7)
+	checkConvertWalksFaithfulClone(p, r, "V6")
 	for _, fn := range outputFuncs(p) {
 		for i, o := range outputReturns(p, fn) {
 			if o.textOnly != 1 {
@@ -482,5 +441,81 @@ func checkDisplayPattern(p *core.Program, r *core.Report, rule string, gd *ssa.F
 			}
 		}
 		r.Add(rule, "the display pattern reads the display property in every spelling of an inline declaration", p.Pos(gd.Pos()), len(wrong) == 0, strings.Join(wrong, "; ")+" [pattern "+pat+"]")
+	}
+}
+
+// checkInnerTextCollector (V5 of C04; shared with C02-O11 and C08-E11): the recursive text
+// collector of domutil.InnerText conforms to its documented decision list - what it writes for a
+// text node (the data between two blanks, so that neighbouring nodes never run together), what it
+// does not descend into (line breaks, script/style, elements that are not probably visible), and
+// that everything else is rendered through its children.
+func checkInnerTextCollector(p *core.Program, r *core.Report, rule string) {
+	var innerFinder *ssa.Function
+	if itf := mustFunc(p, r, rule, domutilPkg+".InnerText"); itf != nil {
+		for _, f := range recursiveWorkers(p, itf) {
+			if len(core.Calls(p.Inlined(f), func(ci ssa.CallInstruction) bool {
+				return isSinkWrite(ci)
+			})) > 0 {
+				innerFinder = f
+			}
+		}
+		if innerFinder == nil {
+			r.Undecided(rule, "InnerText: the recursive text collector", "no self-recursive closure/helper of InnerText writes to the buffer")
+		}
+	}
+	if it := p.Inlined(innerFinder); it != nil {
+		paths, atoms, err := core.EnumerateDecisions(p, it, core.DecisionOpts{
+			Outcome: func(in ssa.Instruction, c *core.Canon) (string, bool) {
+				if _, ok := in.(*ssa.Return); ok {
+					return "done", true
+				}
+				return "", false
+			},
+			Event: func(in ssa.Instruction, c *core.Canon) (string, bool) {
+				if call, ok := in.(*ssa.Call); ok {
+					if s, ok := sinkWritten(call, c); ok {
+						return "write " + s, true
+					}
+					if isSelfCall(p, innerFinder, call) {
+						var nodes []string
+						for _, a := range call.Call.Args {
+							if types.TypeString(a.Type(), func(p *types.Package) string { return p.Name() }) == "*html.Node" {
+								nodes = append(nodes, c.Of(a))
+							}
+						}
+						return "recurse " + strings.Join(nodes, ","), true
+					}
+				}
+				return "", false
+			},
+		})
+		if err != nil {
+			r.Undecided(rule, "InnerText", err.Error())
+		}
+		// the node parameter of the collector ($0 for the closure form, any position for a named helper)
+		N := fmt.Sprintf("$%d", paramIndexOfType(it, "*html.Node"))
+		child := `μ(` + N + `.FirstChild|@0.NextSibling)`
+		spec := core.DecisionSpec{
+			Atoms: map[string]string{
+				"text":    q(`` + N + `.Type == html.TextNode`),
+				"element": q(`` + N + `.Type == html.ElementNode`),
+				"br":      q(`` + N + `.Data == "br"`),
+				"visible": q(`domutil.IsProbablyVisible(` + N + `)`),
+				// (the element name read as n.Data or through dom.TagName)
+				"script":   `^(` + regexp.QuoteMeta(N+`.Data`) + `|` + regexp.QuoteMeta(`dom.TagName(`+N+`)`) + `) == "script"$`,
+				"style":    `^(` + regexp.QuoteMeta(N+`.Data`) + `|` + regexp.QuoteMeta(`dom.TagName(`+N+`)`) + `) == "style"$`,
+				"children": q(`loop1(` + child + ` == nil)`),
+			},
+			Rules: []core.SpecRule{
+				{Name: "text node (no children)", Guard: core.And(core.A("text"), core.A("children")), Outcome: `write ((" " + ` + N + `.Data) + " ") => done`},
+				{Name: "text node", Guard: core.A("text"), Outcome: `write ((" " + ` + N + `.Data) + " "); recurse ` + child + ` => done`},
+				{Name: "line break", Guard: core.And(core.A("element"), core.A("br")), Outcome: `write "|\\/|" => done`},
+				{Name: "script or style: source code, not descended whatever its style says", Guard: core.And(core.A("element"), core.Or(core.A("script"), core.A("style"))), Outcome: "done"},
+				{Name: "hidden element: not descended", Guard: core.And(core.A("element"), core.Not(core.A("visible"))), Outcome: "done"},
+				{Name: "no children", Guard: core.A("children"), Outcome: "done"},
+				{Name: "visible element / other node: children are rendered", Guard: core.True(), Outcome: "recurse " + child + " => done"},
+			},
+		}
+		core.CheckDecisionList(r, rule, "InnerText(finder)", paths, atoms, spec)
 	}
 }
